@@ -392,8 +392,8 @@ pub fn run(ctx: &mut Ctx) {
             let mut script: Vec<(bool, u32, u32, Vec<u8>)> = Vec::new();
             for i in 0..items {
                 if rng.range(0, 3) != 0 {
-                    let size = if dir == 1 { match rng.range(0, 6) { 0 => 0x7FFF, 1 => 0x8000, 2 => rng.range(0x8000, 0x7FFFFF) as u32, 3 => 0x7FFFFF, _ => rng.range(0, 0x7FFF) as u32 } }
-                               else { rng.range(0, 0xFFFF) as u32 };
+                    let size = if dir == 1 { match rng.range(0, 6) { 0 => 0x7FFF, 1 => 0x8000, 2 => rng.range(0x8000, 0x7FFFFF) as u32, 3 => 0x7FFFFF, _ => crate::c11::edge_size(&mut rng, true) } }
+                               else { crate::c11::edge_size(&mut rng, false) };
                     let opcode = if dir == 1 { rng.range(0, 0xFFFF) as u32 } else { rng.next() as u32 };
                     script.push((true, size, opcode, Vec::new()));
                 } else {
@@ -529,7 +529,7 @@ pub fn run(ctx: &mut Ctx) {
                     else { plain.extend_from_slice(&[0x80 | (size >> 16) as u8, (size >> 8) as u8, size as u8, opcode as u8, (opcode >> 8) as u8]); }
                     script.push((size, opcode, refused));
                 } else {
-                    let (size, opcode) = (rng.range(0, 0xFFFF) as u32, rng.next() as u32);
+                    let (size, opcode) = (crate::c11::edge_size(&mut rng, false), rng.next() as u32);
                     plain.extend_from_slice(&[(size >> 8) as u8, size as u8]); plain.extend_from_slice(&opcode.to_le_bytes());
                     script.push((size, opcode, refused));
                 }
@@ -575,6 +575,40 @@ pub fn run(ctx: &mut Ctx) {
                 }
             }
             ctx.count("oracle_failed_write_histories");
+        }
+    }
+    // ---- oracle 5: typed traffic through a receive buffer (see c11::typed_traffic)
+    { let n = if ctx.quick() { 300 } else { 3000 }; crate::c11::typed_traffic(ctx, 2, n); }
+    // ---- oracle 6: what an object does depends on ITS session key only, not on which objects were built or used
+    //      before it (in this thread or process).  A first pair is built for K1 and used; then a pair for a key K2
+    //      that is related to K1 in a structured way; K2's two directions are compared with the independent stream
+    {
+        let mut rng = ctx.rng("oracle6");
+        let n = if ctx.quick() { 400 } else { 6000 };
+        for k in 0..n {
+            let k1: [u8; 40] = match k % 5 { 0 => { let mut x = [0u8; 40]; x[rng.below(40) as usize] = 1 << rng.below(8); x } _ => rng.arr() };
+            let (k2, rel) = if k % 5 == 0 && k % 2 == 0 { let mut x = [0u8; 40]; x[rng.below(40) as usize] = 1 << rng.below(8); (x, "another one-hot key") } else { crate::c11::related_key(&mut rng, &k1) };
+            let used = rng.range(0, 40) as usize;
+            let r = catch(|| {
+                let (mut c1, mut s1) = pair(k1);
+                let mut w = vec![0u8; used]; c1.encrypt(&mut w); s1.decrypt(&mut w); s1.encrypt(&mut w); c1.decrypt(&mut w);
+                let (mut c2, mut s2) = pair(k2);
+                let mut z = [[0u8; 48]; 4];
+                c2.encrypt(&mut z[0]); s2.decrypt(&mut z[1]); s2.encrypt(&mut z[2]); c2.decrypt(&mut z[3]);
+                z
+            });
+            ctx.oracle_runs += 1;
+            let det = |what: &str| format!("{{\"what\":\"{}\",\"first_key\":\"{}\",\"second_key\":\"{}\",\"relation\":\"{}\",\"bytes_through_first_pair\":{}}}", what, hex(&k1), hex(&k2), rel, used);
+            match r {
+                None => ctx.fail("panic", det("panic while building a second pair of objects")),
+                Some(z) => {
+                    let c2s = RefRc4::wrath(&C2S, &k2).xor(&[0u8; 48]);
+                    let s2c = RefRc4::wrath(&S2C, &k2).xor(&[0u8; 48]);
+                    if z[0].to_vec() != c2s || z[1].to_vec() != c2s { ctx.fail("construction_history", det("client-to-server stream of the SECOND key's objects, built after objects for the first key, is not RC4-drop1024(HMAC-SHA1(constant, second key))")); }
+                    else if z[2].to_vec() != s2c || z[3].to_vec() != s2c { ctx.fail("construction_history", det("server-to-client stream of the SECOND key's objects, built after objects for the first key, is not RC4-drop1024(HMAC-SHA1(constant, second key))")); }
+                }
+            }
+            ctx.count(&format!("oracle6_relation:{}", rel));
         }
     }
     ctx.notes.push("independent oracle: textbook RC4 + hand-written HMAC over the sha-1 crate, direction constants copied from the property text; validated on RFC 6229 (2 keys, 32 bytes) and RFC 2202 (cases 1, 2, 6) at the start of every run".to_string());
